@@ -37,6 +37,7 @@ GFlipData     == IsEv("AdvFlipData") /\ AdvFlipData(Ev.i)
 GFlipMac      == IsEv("AdvFlipMac") /\ AdvFlipMac
 GSwap         == IsEv("AdvSwap") /\ AdvSwap
 GPad          == IsEv("AdvPad") /\ AdvPad
+GCount        == IsEv("AdvCount") /\ AdvCount(Ev.i)
 GReplay       == IsEv("AdvReplay") /\ Ev.j \in DOMAIN hl /\ AdvReplay(hl[Ev.j])
 \* commands that touch nothing the model tracks (NDEF reads, CKV, CC page, repeated commands ...),
 \* never while a modelled response is in flight
@@ -49,7 +50,7 @@ GReturn       == /\ IsEv("Return") /\ pc = "idle" /\ last.op # "none"
                  /\ UNCHANGED vars
 
 Guarded == GStartAuth \/ GStartProtect \/ GStartRead \/ GStartWrite \/ GStartNdef \/ GAWriteRC \/ GAReadId \/ GSReadWcnt
-           \/ GSReadState \/ GNPwd \/ GRRead \/ GCheck \/ GFlipData \/ GFlipMac \/ GSwap \/ GPad \/ GReplay
+           \/ GSReadState \/ GNPwd \/ GRRead \/ GCheck \/ GFlipData \/ GFlipMac \/ GSwap \/ GPad \/ GCount \/ GReplay
            \/ GOther \/ GReturn
 
 Logged == Ev.a \in {"AReadId", "SReadState", "RRead"} \/ (Ev.a = "NPwd" /\ resp'.k = "data")
